@@ -43,6 +43,28 @@ CHECKS = {
             'Trusted: ref/dispatch.py, ref/match.py, urllib.parse; werkzeug strips leading repeated slashes before '
             'clastic sees the path (modelled).',
             'DESIGN.md section 5, C07'),
+    'C01': ('E1-product-enumerator',
+            'layered bounded-exhaustive enumeration of route configurations built with the real classes, accept/reject '
+            'and request-time behaviour judged by a reference availability model',
+            'Complete layers: one-name stack arithmetic for <=2 middlewares at application/route level with every subset of '
+            'phase functions (quick: second middleware restricted to one phase function), long chains of 3-4 middlewares, '
+            'six parameter roles x seven callable kinds at every chain position, two names with every source pair, and '
+            'built-in names; each configuration constructed through Application(list)/add()/Route.bind() in rotation '
+            'and, when accepted, driven with a hit, a 404 and a 405 under a re-raising handler. The iff in the property is '
+            'over a combinatorial space, hence complete layers rather than examples.',
+            'Trusted: ref/bind.py. Cyclic provides and positional-only parameters have relaxed expectations as the '
+            'property allows. Not covered: >2 names, three middlewares each with several phase functions.',
+            'DESIGN.md section 5, C01'),
+    'C02': ('E1-product-enumerator',
+            'same enumeration as C01 restricted to accepted configurations; identity comparison of every injected '
+            'argument with its declared source, AST check of generated chains, cross-worker hash-seed diff',
+            'For every accepted configuration of the C01 layers each (function, parameter) value observed on a hit, a 404 '
+            'and a 405 is compared by identity with the sentinel of the unique source ref/bind.py computes; the same '
+            'configurations are re-run behind routes that match the same path, bind the same names and are skipped '
+            '(method mismatch / non-breaking error); generated chain sources are parsed and checked structurally; a '
+            'common sub-sample is traced by every worker under a different PYTHONHASHSEED and must agree.',
+            'Trusted: ref/bind.py, sentinel identity. URL values are compared by equality.',
+            'DESIGN.md section 5, C02'),
 }
 
 NOT_YET = 'check not built yet in this revision of /verif (planned: bounded exhaustive exploration, see DESIGN.md section 5)'
